@@ -97,6 +97,16 @@ func genDesc(r *vf.Rand, i int) Desc {
 	}
 	d.Consumers = append(d.Consumers, prog.Prog{Nodes: []prog.Node{arg,
 		{Op: "repartition", In: []int{0}, Exprs: []prog.Expr{{K: "const", A: 1}}}}})
+	// the same Result used twice inside one later Func: pipelined and through shuffles
+	// into different (and equal) shard counts, joined again
+	if keyable && scalarRestOf(root) {
+		ident := prog.Node{Op: "filter", In: []int{0}, Exprs: []prog.Expr{{K: "true"}}}
+		d.Consumers = append(d.Consumers,
+			prog.Prog{Nodes: []prog.Node{arg, ident, {Op: "reshard", In: []int{0}, N: 1}, {Op: "cogroup", In: []int{1, 2}}}},
+			prog.Prog{Nodes: []prog.Node{arg, {Op: "reshard", In: []int{0}, N: 1}, ident, {Op: "cogroup", In: []int{1, 2}}}},
+			prog.Prog{Nodes: []prog.Node{arg, {Op: "reshard", In: []int{0}, N: root.NShard + 1}, {Op: "reshard", In: []int{0}, N: root.NShard + 3}, {Op: "cogroup", In: []int{1, 2}}}},
+			prog.Prog{Nodes: []prog.Node{arg, {Op: "reshuffle", In: []int{0}}, {Op: "repartition", In: []int{0}, Exprs: []prog.Expr{{K: "const", A: 0}}}, {Op: "cogroup", In: []int{1, 2}}}})
+	}
 	n := r.Range(2, 6)
 	for j := 0; j < n; j++ {
 		switch k := r.Intn(10); {
@@ -108,11 +118,22 @@ func genDesc(r *vf.Rand, i int) Desc {
 			d.Steps = append(d.Steps, Step{K: "pipe", G: r.Intn(2)})
 		case k < 8:
 			d.Steps = append(d.Steps, Step{K: "shuf", G: 2 + r.Intn(len(d.Consumers)-2)})
-		default:
+		case k < 9:
 			d.Steps = append(d.Steps, Step{K: "discard"})
+		default:
+			d.Steps = append(d.Steps, Step{K: "sdisc", G: r.Pick([]int{0, 1, 3, 10})})
 		}
 	}
 	return d
+}
+
+func scalarRestOf(root prog.Schema) bool {
+	for _, c := range root.Types[root.Prefix:] {
+		if c != "i" && c != "s" {
+			return false
+		}
+	}
+	return true
 }
 
 func obsTerm(o prog.Obs) string {
@@ -228,6 +249,13 @@ func main() {
 				if o.Err == "timeout" || o.Err == "hang" {
 					wedged = true
 				}
+			case "sdisc":
+				// a scanner opened (and partly read) before a Discard keeps scanning after it
+				o := prog.ScanAcross(ctx, res, rootSch, st.G, func() { res.Discard(ctx) })
+				steps = append(steps, vf.App("mkStep", "KScanAcrossDiscard", d.Base.Term(), obsTerm2(o)))
+				summary = append(summary, fmt.Sprintf("sdisc%d:%s/%s", st.G, o.Err, o.ScanErr))
+				discarded = true
+				nontriv = true
 			case "discard":
 				res.Discard(ctx)
 				discarded = true
@@ -250,6 +278,12 @@ func main() {
 		fmt.Fprintln(os.Stderr, err)
 		os.Exit(2)
 	}
+}
+
+// obsTerm2 keeps the rows scanned also when the scan ended in an error.
+func obsTerm2(o prog.Obs) string {
+	o.Err = "ok"
+	return o.Term()
 }
 
 // runWithArg runs a consumer program over a Result argument.
